@@ -265,7 +265,8 @@ let run_oracle (file : string) (max_report : int) : unit =
       incr reported;
       Printf.printf "F %s %d %d %s%s\n" !case_id !opidx code (code_text code) extra
     end in
-  let flush_vec () =
+  let skipped = ref 0 in
+  let flush_vec ?(last = false) () =
     if !have_vec then begin
       have_vec := false;
       let v = SL.rev !vec in
@@ -277,7 +278,15 @@ let run_oracle (file : string) (max_report : int) : unit =
         size_before := (match SL.find_opt (fun (t, _) -> t = TSize) v with
             | Some (_, OZ n) -> Some n
             | _ -> None);
-        SL.iter (fun code -> fail (z_to_int code) "") (Oracle.oracle_vector c v)
+        (* the sortedness check of the oracle is quadratic in the number of keys: structures with more
+           than 300 entries are judged on every 32nd vector and on the last vector of their case (the
+           cost lines are always judged) *)
+        let big = (match !size_before with
+            | Some n -> (try z_to_int n > 300 with _ -> true)
+            | None -> false) in
+        if (not big) || !opidx land 31 = 0 || last then
+          SL.iter (fun code -> fail (z_to_int code) "") (Oracle.oracle_vector c v)
+        else incr skipped
     end in
   (try
      while true do
@@ -312,14 +321,14 @@ let run_oracle (file : string) (max_report : int) : unit =
            (* a component that is not an S-expression of integers is undecodable, not fatal *)
            (try vec := parse_v line :: !vec
             with Failure _ -> fail 1 (" (unreadable line: " ^ (if n > 60 then SS.sub line 0 60 ^ "..." else line) ^ ")"))
-         | 'E' -> flush_vec ()
+         | 'E' -> flush_vec ~last:true ()
          | '#' -> ()
          | _ -> failwith ("bad line " ^ line)
        end
      done
    with End_of_file -> ());
-  flush_vec ();
-  Printf.printf "S cases=%d vectors=%d failures=%d\n" !cases !vectors !failures
+  flush_vec ~last:true ();
+  Printf.printf "S cases=%d vectors=%d failures=%d sampled_out=%d\n" !cases !vectors !failures !skipped
 
 (* ---------- mode 2: Gallina literals for CrossCheck.v ---------- *)
 (* Integers are written through named constants ([z_12], [z_m3] : Z and [o_12], [o_m3] := OZ ..) that
